@@ -155,6 +155,43 @@ class Ctx:
                                                                      p.stdout[-2000:], p.stderr[-4000:]))
         return p
 
+    # ---------------------------------------------------------------- tlaps
+    def tlaps(self, subdir, modules, timeout=1800, stretch=3, tag=None):
+        """Check proofs/<subdir>/<module>.tla (modules that EXTEND a module of spec/<subdir>) with the TLA+ proof
+        system, one tlapm process per module, in parallel.  Returns the number of proof obligations, all proved;
+        anything else is an infrastructure failure (a proof about the model is never a verdict about the code)."""
+        if isinstance(modules, str):
+            modules = [modules]
+        with self._lock:
+            self._nrep += 1
+            wd = self.path("tlaps%d" % self._nrep)
+        os.makedirs(wd)
+        for d in (os.path.join(SPEC, "common"), os.path.join(SPEC, subdir), os.path.join(VERIF, "proofs", subdir)):
+            if os.path.isdir(d):
+                for fn in os.listdir(d):
+                    if fn.endswith(".tla"):
+                        shutil.copy(os.path.join(d, fn), wd)
+        t = time.time()
+        per = max(2, min(NCPU, 16) // max(1, len(modules)))
+
+        def one(mod):
+            try:
+                p = subprocess.run(["tlapm", "--threads", str(per), "--stretch", str(stretch), "--cleanfp", mod + ".tla"], cwd=wd,
+                                   capture_output=True, text=True, timeout=timeout)
+            except subprocess.TimeoutExpired:
+                raise Infra("tlapm timed out after %ss on %s" % (timeout, mod))
+            out = p.stdout + p.stderr
+            m = re.search(r"All (\d+) obligations? proved", out)
+            if p.returncode != 0 or not m:
+                keep = "\n".join(l for l in out.splitlines() if not l.startswith(("Called from", "Raised at")))
+                raise Infra("tlapm did not prove every obligation of %s:\n%s" % (mod, keep[-3000:]))
+            return int(m.group(1))
+        counts = parallel([(lambda m=m: one(m)) for m in modules], len(modules))
+        n = sum(counts)
+        self.log("TLAPS %s: all %d obligations of %d module(s) proved %.1fs" % (tag or ", ".join(modules), n, len(modules), time.time() - t))
+        self.cov["tlaps_obligations_proved"] = self.cov.get("tlaps_obligations_proved", 0) + n
+        return n
+
     # ---------------------------------------------------------------- tlc
     def tlc(self, subdir, module, cfg, workers=None, timeout=600, files=None, xmx="4g",
             simulate=None, depth=None, extra=None, deque=False, coverage=False, count=True, tag=None):
